@@ -26,10 +26,15 @@ def report(ctx: Ctx, sig: dict, what: str, payload: dict, name: str | None = Non
             ctx.known_hits.append(line)
             print(line, flush=True)
         return
+    key = json.dumps(sig, sort_keys=True, default=str)
+    for v in ctx.violations:                      # one report per distinct signature
+        if v["key"] == key:
+            v["count"] += 1
+            return
     name = name or f"v{len(ctx.violations)}"
     payload = dict(payload); payload["signature"] = sig; payload["what"] = what
     path = ctx.write_replay(name, payload)
-    ctx.violations.append({"sig": sig, "what": what, "replay": str(path), "nofail": nofail})
+    ctx.violations.append({"sig": sig, "key": key, "count": 1, "what": what, "replay": str(path), "nofail": nofail})
     tail = " no-failing-input-found" if nofail else ""
     print(f"VIOLATION property={ctx.prop} replay={path}{tail}", flush=True)
     ctx.log("violation:", what)
